@@ -203,8 +203,13 @@ var c20FaultKinds = []simos.Fault{
 	{Kind: "short", Errno: syscall.ENOSPC},
 	{Kind: "crash"},
 	{Kind: "crash-after"},
+	// error classes a caller might single out (os.IsExist is true for EEXIST and
+	// ENOTEMPTY; EINTR calls itself temporary)
+	{Kind: "err", Errno: syscall.EEXIST},
+	{Kind: "err", Errno: syscall.ENOTEMPTY},
+	{Kind: "err", Errno: syscall.EINTR},
 }
-var c20FaultNames = []string{"EIO", "ENOSPC", "EACCES", "ENOENT", "EXDEV", "short", "crash", "crash-after"}
+var c20FaultNames = []string{"EIO", "ENOSPC", "EACCES", "ENOENT", "EXDEV", "short", "crash", "crash-after", "EEXIST", "ENOTEMPTY", "EINTR"}
 
 func under(p, dir string) bool { return p == dir || strings.HasPrefix(p, dir+"/") }
 
